@@ -1,24 +1,74 @@
 #!/usr/bin/env python3
 """Regenerates /verif/MANIFEST.json from the table below (single source of truth for claimed checks)."""
-import json, os, sys
+import json, os
 ROOT = os.path.dirname(os.path.dirname(os.path.abspath(__file__)))
 props = [json.loads(l) for l in open(os.path.join(ROOT, "properties.jsonl"))]
 
-# id -> (category, technique, level text, level note, design ref)
+E = "exploration"
+# id -> (category, technique, what the level gives, trusted base / assumptions)
 CHECKS = {
- "C15": ("exploration",
-         "proptest round-trip (print->parse, to-JSON->from-JSON) over generated value trees",
-         "Generated-input search: every run draws hundreds of thousands of value trees whose strings cover control, quote, backslash and non-BMP classes and whose numbers cover the i64/u64/f64 ranges, and demands structural, bit-exact equality after the round trip. It cannot prove absence, but the input space of a printer is flat (no deep state), so dense random coverage of character and number classes is the right level.",
-         "Trusts the harness's strict equality function and async-graphql's own parser as the inverse (that is what the property states). Binary values excluded as in the statement.",
-         "DESIGN.md §4 C15"),
+ "C02": (E, "proptest differential vs reference executor (random dynamic schemas, worlds, typed documents)",
+   "Every case builds a random dynamic type system, a data world valid for it and a valid document with variables, executes it and compares data exactly and errors by path+location with an executor written from spec section 6. Search over tens of thousands of (schema, world, document) triples with shrinking; no absence proof.",
+   "Trusts the harness's reference executor/coercion and that generated documents are valid (by construction). Null items in lists of composite type are not expressible in the dynamic API and are out of domain."),
+ "C07": (E, "bounded-exhaustive enumeration (8/16-bit domains) + proptest with domain predicate and round trip",
+   "All i8/u8/i16/u16 (+NonZero) values and every integer in -70000..70000 are offered to each small type exhaustively; wider types, floats, chars, IDs and enums get boundary-dense and random values; accept-exactly and round-trip are both asserted.",
+   "Observes the InputType/ScalarType trait API. Open classes (integral floats to integer types, huge integers to ID) accept either answer with exact value."),
+ "C08": (E, "proptest + deterministic bound sweeps against an exact-arithmetic predicate",
+   "Each validator kind x type x mode (strict/fast) x literal/variable supply is swept around every bound and driven with 400k random queries; resolver invoked iff predicate holds in i128 / exact float arithmetic.",
+   "Bounds are compile-time literals mirrored in a table; multiple_of with 0 excluded; regex limited to three fixed patterns."),
+ "C13": (E, "proptest: generated ASTs printed with random trivia must parse to the same tree; near-miss mutations judged by an independent reference parser (differential)",
+   "Positive and negative direction: 90k+ documents per quick run (executable and type-system), strings with escapes/block strings, all trivia kinds; acceptance must equal the reference parser's and trees must be equal when both accept.",
+   "Trusts the reference parser (written from the Oct-2021 grammar; self-checked against the printer on every positive case). Don't-care: raw control characters, \\u{...} escapes, duplicate definitions, numbers outside the 64-bit model, nesting depth 65."),
+ "C14": (E, "proptest with the printer's own (line, column) table as oracle",
+   "Every positioned node of the parsed tree, validation and execution error locations on a mini schema, and syntax-error positions of an inserted illegal character are compared with positions recorded while printing documents with LF/CRLF/lone-CR, tabs, BOMs, comments and non-ASCII text.",
+   "Operation/fragment name positions are not kept by the tree and not checked. Argument errors may point at the argument name or its value."),
+ "C15": (E, "proptest round-trip (print->parse, to-JSON->from-JSON) over generated value trees",
+   "Hundreds of thousands of value trees per run whose strings cover control, quote, backslash and non-BMP classes and whose numbers cover the i64/u64/f64 ranges; structural bit-exact equality after the round trip.",
+   "Uses async-graphql's own parser as the inverse (as the property states). Binary values excluded as in the statement."),
+ "C16": (E, "proptest round-trip over a family of serde types covering the data model",
+   "A fixed family of Serialize+Deserialize types (all struct/enum variant shapes, options, maps, sequences, tuples, integer widths, floats, bytes) nested to depth 4; from_value(to_value(v)) == v on ~1M values per quick run.",
+   "Out of domain: non-finite floats, char, 128-bit integers, Option<Option<_>>."),
+ "C20": (E, "proptest safety/exactness oracle over a hinted schema + exhaustive algebraic laws over policy tuples",
+   "Random documents through object/interface/union fields on a schema with every hint class; the response policy must be at least as restrictive as every contributing type/field (exact for object-only documents); merge laws exhaustive over all 1-3-tuples of a policy value set.",
+   "Which types contributed data is computed from the harness's own data-driven resolvers."),
+ "C21": (E, "proptest sentinel search in stringified documents",
+   "Documents place unique sentinels in every secret position (literal, variable, lists, nested input objects, fragments, defaults); the text from ExtensionContext::stringify_execute_doc and the Logger extension must not contain any secret sentinel while non-secret sentinels remain visible.",
+   "Tracing-extension output is not captured (feature not enabled)."),
+ "C23": (E, "proptest encode/decode agreement across transports + exhaustive completion orders for batches",
+   "Each random request is encoded as JSON body, batch element, GET query string and multipart operations part and must decode to the same request; ten malformed families must be rejected; execute_batch keeps order under every completion order (exhaustive up to 5 requests).",
+   "Own percent-encoder / multipart writer; invalid percent escapes are don't-care."),
+ "C24": (E, "proptest against a reference binding model for multipart uploads",
+   "Generated multipart bodies (batch paths, several paths per file, permuted parts, missing/extra files, sizes around limits, chunked delivery) are decoded and every mapped position is read back through an Upload argument.",
+   "Unresolvable map paths are don't-care; only Err is required for limit violations."),
+ "C25": (E, "bounded-exhaustive enumeration of client/stream/timer scripts + proptest, judged by a protocol monitor",
+   "All scripts up to length 5 (quick) / 6 (thorough) for both websocket protocols plus random scripts to length 30 run against a fake Executor on a deterministic executor; a monitor written from the protocol documents checks ack-before-output, live ids, single complete, close codes and silence after close.",
+   "Server polled explicitly (no liveness); several protocol details outside the statement are don't-care (listed in evidence)."),
+ "C26": (E, "bounded-exhaustive interleavings + proptest, judged by an independent multipart/mixed reader",
+   "All interleavings of response/timer/end events up to 7 (quick) / 9 (thorough) with partial polls; parts must be the responses in order exactly once, heartbeats {} parts, one closing delimiter last.",
+   "select! branch order is random in the code under test; the oracle accepts either order of simultaneous events."),
+ "C28": (E, "bounded-exhaustive DFS over schedules of a deterministic executor + proptest schedules",
+   "Every action sequence for <=3 concurrent load_many requests over 3 keys, batch sizes 1-3, three cache modes and three loader scripts (1.7M runs) plus random larger configurations; result/batch invariants checked at quiescence.",
+   "Liveness only as 'nothing pending at quiescence'; real multi-threaded races inside scc are out of reach of this technique."),
+ "C29": (E, "proptest histories against a reference cache model run in lock-step (set of possible LRU states)",
+   "300k histories of load/feed/clear/enable operations over NoCache, HashMapCache and LruCache(1-4); every observation must be consistent with at least one model state; no operation may panic.",
+   "Insertion order of a multi-key batch into an LRU is unspecified and modelled as a set of states."),
+ "C31": (E, "proptest histories against a hash->text reference model",
+   "Histories of registrations, hash-only lookups, wrong hashes/versions and malformed payloads; the executed document (identified by echoed constants) must be the one hashing to the supplied hash or PersistedQueryNotFound.",
+   "SHA-256 from the sha2 crate; eviction allowed at any time."),
+ "C32": (E, "exhaustive small domains + proptest round-trip and argument-validity oracle",
+   "All i8/u8/i16/u16/bool cursors and most chars exhaustively, random values of every CursorType incl. OpaqueCursor, random cursor strings, page-info cursors on an executed schema, and query_with closure-called-iff-valid.",
+   "NaN compared by class; which error is reported for several invalid arguments is don't-care."),
+ "C34": (E, "proptest with a browser-like evaluator (HTML tokenizer + JS string-literal evaluator) as oracle",
+   "Configuration strings over quotes, ampersands, angle brackets, backslashes, line terminators, </script and non-ASCII; every configured literal must end at the template's own quote and evaluate to exactly the configured value.",
+   "HTML named character references other than the XML five are not modelled."),
 }
-PENDING_REASON = "check not built yet in this session (planned in DESIGN.md §7); not claimed until its oracle exists and has been validated against mutants"
+NA_REASON = "check not built yet in this session (planned in DESIGN.md section 7); not claimed until its oracle exists and has been validated against mutants"
 
 checks, na = [], []
 for p in props:
     i = p["id"]
     if i in CHECKS:
-        cat, tech, text, note, ref = CHECKS[i]
+        cat, tech, text, note = CHECKS[i]
         checks.append({
             "property_id": i,
             "quick_cmd": f"./check {i} quick",
@@ -26,21 +76,21 @@ for p in props:
             "evidence_file": f"/verif/evidence/{i}.json",
             "replay_cmd_template": f"./check {i} quick --replay {{path}}",
             "engine": "vcheck-web" if i == "C35" else "vcheck",
-            "level_claimed": {"category": cat, "text": text, "design_ref": ref},
+            "level_claimed": {"category": cat, "text": text, "design_ref": f"DESIGN.md section 4, {i}"},
             "level_note": note,
             "technique": tech,
         })
     else:
-        na.append({"property_id": i, "reason": NA.get(i, PENDING_REASON) if (NA := globals().get("NA_REASONS", {})) is not None else PENDING_REASON})
+        na.append({"property_id": i, "reason": NA_REASON})
 
 manifest = {
  "version": 1,
  "setup_cmd": "cd /verif/harness && CARGO_NET_OFFLINE=true cargo build --release --offline -p vcheck",
  "hooks": {
    "guard": "cargo feature `verif-hooks` on the async-graphql crate",
-   "enable": "the harness depends on async-graphql by path (/repo) with features = [..., \"verif-hooks\"]; every ./check run rebuilds it from the current tree",
+   "enable": "the harness depends on async-graphql by path (/repo); checks that need the work counter enable the feature `verif-hooks`; every ./check run rebuilds from the current tree",
    "baseline_off_cmd": "cd /repo && cargo test --workspace --no-fail-fast --offline",
-   "source_commits": HOOK_COMMITS if (HOOK_COMMITS := globals().get("HOOKS", [])) is not None else [],
+   "source_commits": [],
    "add_only": True,
  },
  "engines": [
